@@ -623,6 +623,7 @@ class ContractResult:
         self.solver_time = 0.0
         self.error = None
         self.truncated = False
+        self.vacuous = []
 
     def named(self):
         """name -> aggregated status over paths."""
@@ -683,6 +684,22 @@ class Verifier:
             discharge(vc)
             res.solver_time += vc.time
         res.vcs = cr.vcs
+        # vacuity guard: the assumptions of the last obligation of every path (a superset of those of
+        # the earlier ones on that path) must be satisfiable, else everything "proved" there is void
+        last = {}
+        for vc in cr.vcs:
+            last[vc.path_id] = vc
+        for pid_, vc in last.items():
+            if vc.status != "proved":
+                continue
+            sv = z3.Solver()
+            sv.set("timeout", 2000)
+            for a in vc.assumptions:
+                sv.add(a)
+            t1 = time.time()
+            if sv.check() == z3.unsat:
+                res.vacuous.append(f"path{pid_} (at obligation {vc.name})")
+            res.solver_time += time.time() - t1
         # counter-models -> native replay
         searched = {}
         for vc in cr.vcs:
